@@ -80,6 +80,11 @@ def generate(seed: int, tier: str) -> Dict[str, Any]:
                         "value": ro.choice({"t1_pops": [None, 0, 1, 2, 100], "t1_iters": [0, 1, 50], "t2_k": [0, 1, 64], "t3_ops": [0, 1, 3]}[k])})
         ops.append({"op": "turn", "agent": ro.choice(agents), "text": ro.choice(texts), "turn_id": i, "now_ms": E.T0_MS + i * 1000,
                     "cost_ms": {s: ro.choice([0, 0, 1, 3, 10, 50, 500]) for s in ("T1", "T2", "T3", "T4", "Apply")}})
+        if ro.chance(0.3):
+            # the slice is presented again exactly as it was (what a driver does with a turn that yielded before Apply): the
+            # version has not moved, so its retrieval is answered by the turn-level cache - the budget binds all the same
+            again = dict(ops[-1], cost_ms={s: ro.choice([0, 0, 1, 3, 10, 50, 500]) for s in ("T1", "T2", "T3", "T4", "Apply")})
+            ops.append(again)
     return {"target": "orch", "world": world, "cfg": raw, "ops": ops}
 
 
@@ -254,6 +259,22 @@ def _orch(p: Dict[str, Any], stats: Dict[str, int]) -> List[Dict[str, Any]]:
                             bad("t3-ops-exceed-budget", "%d ops > %s; %s" % (nops, budgets["t3_ops"], ctxs))
                     if len(sched) > 1:
                         bad("several-yields-in-one-turn", "%s; %s" % (sched, ctxs))
+                    # the retrieval budget as the T2 record itself reports it (independent of what the scheduler record says was
+                    # consumed): hits used == t2_k exhausts the budget, and an exhausted budget ends the slice at that boundary
+                    t2_first = (new.get("t2.jsonl") or [None])[0]
+                    t2_exhausted = bool(t2_first) and budgets.get("t2_k") is not None and int(t2_first.get("k_used", -1)) == int(budgets["t2_k"])
+                    if t2_exhausted:
+                        stats["t2_budget_exhausted"] = stats.get("t2_budget_exhausted", 0) + 1
+                        if (t2_first or {}).get("cache_hit"):
+                            stats["t2_budget_exhausted_on_cache_hit"] = stats.get("t2_budget_exhausted_on_cache_hit", 0) + 1
+                        if not sched:
+                            bad("t2-budget-exhausted-without-yield", "k_used %s == t2_k %s (cache_hit=%s) and the slice ran on; %s" % (
+                                t2_first.get("k_used"), budgets["t2_k"], t2_first.get("cache_hit"), ctxs))
+                        elif sched[0].get("stage_end") == "T2":
+                            ms0 = int((sched[0].get("consumed") or {}).get("ms", 0))
+                            if not (budgets.get("wall_ms") is not None and ms0 >= int(budgets["wall_ms"])) and str(sched[0].get("reason")) != "BUDGET_T2_K":
+                                bad("yield-reason-precedence:t2-budget", "k_used == t2_k (cache_hit=%s) but the slice yielded with %s; %s" % (
+                                    t2_first.get("cache_hit"), sched[0].get("reason"), ctxs))
                     if not sched:
                         continue
                     stats["yields"] = stats.get("yields", 0) + 1
